@@ -28,6 +28,7 @@ type frame struct {
 	defers []deferred
 	result Value
 	locals []Value
+	user   bool // executing harness ("user") code: callbacks, reader/writer, file-system model (see race.go)
 }
 
 type intrinsicFn func(r *Run, fr *frame, args []Value) Value
@@ -41,6 +42,7 @@ type Engine struct {
 	trace      bool
 	n          int
 	sched      string
+	race       bool // happens-before data-race detection (race.go)
 	fnCache    sync.Map // *ssa.Function -> *fnInfo
 	seenMu     sync.Mutex
 	funcsSeen  map[string]bool
@@ -48,15 +50,16 @@ type Engine struct {
 }
 
 type fnInfo struct {
-	name string
-	in   intrinsicFn
+	name  string
+	in    intrinsicFn
+	class int // 0 other (std, dependencies), 1 harness, 2 repository
 }
 
 func (e *Engine) info(fn *ssa.Function) *fnInfo {
 	if v, ok := e.fnCache.Load(fn); ok {
 		return v.(*fnInfo)
 	}
-	fi := &fnInfo{name: fn.String()}
+	fi := &fnInfo{name: fn.String(), class: e.fnClass(fn)}
 	stub := ""
 	if in, ok := e.intrinsics[fi.name]; ok {
 		fi.in, stub = in, fi.name
@@ -140,6 +143,18 @@ func (r *Run) callFunc(caller *frame, fn *ssa.Function, args []Value, env []Valu
 		panic(unsupported("external function without model: %s", fi.name))
 	}
 	fr := &frame{run: r, fn: fn, env: make(map[ssa.Value]Value)}
+	switch fi.class {
+	case 1:
+		fr.user = true
+		if r.eng.race && caller != nil && !caller.user && fn.Name() == "Write" && len(args) > 0 {
+			// the library writes to the caller's io.Writer: a write access to the writer (not required to be thread-safe)
+			if p, ok := args[0].(Ptr); ok {
+				r.raceAccess(writerKey{p}, true, caller, nil)
+			}
+		}
+	case 0:
+		fr.user = caller != nil && caller.user
+	}
 	for i, p := range fn.Params {
 		fr.env[p] = args[i]
 	}
@@ -212,6 +227,11 @@ func (fr *frame) visit(instr ssa.Instruction) cont {
 			// never a silent zero value: the package's initialiser was not run
 			panic(unsupported("read of global %s (initialiser of its package is not executed)", g))
 		}
+		if instr.Op == token.MUL && r.eng.race {
+			if p, ok := fr.get(instr.X).(Ptr); ok {
+				r.raceCell(p, false, fr, instr)
+			}
+		}
 		fr.env[instr] = r.unop(instr, fr.get(instr.X))
 	case *ssa.BinOp:
 		fr.env[instr] = r.binopT(instr.Op, instr.X.Type(), instr.Y.Type(), fr.get(instr.X), fr.get(instr.Y))
@@ -267,6 +287,9 @@ func (fr *frame) visit(instr ssa.Instruction) cont {
 			r.storeSymElem(se, instr.Val.Type(), fr.get(instr.Val))
 			break
 		}
+		if r.eng.race {
+			r.raceCell(fr.get(instr.Addr).(Ptr), true, fr, instr)
+		}
 		store(fr.get(instr.Addr).(Ptr), fr.get(instr.Val))
 	case *ssa.If:
 		c := fr.get(instr.Cond).(BoolV)
@@ -315,10 +338,17 @@ func (fr *frame) visit(instr ssa.Instruction) cont {
 		fr.env[instr] = &MapV{}
 	case *ssa.MapUpdate:
 		m := fr.get(instr.Map).(*MapV)
+		r.raceAccess(m, true, fr, instr)
 		r.mapUpdate(m, fr.get(instr.Key), fr.get(instr.Value))
 	case *ssa.Lookup:
+		if m, ok := fr.get(instr.X).(*MapV); ok && m != nil {
+			r.raceAccess(m, false, fr, instr)
+		}
 		fr.env[instr] = r.lookup(instr, fr.get(instr.X), fr.get(instr.Index))
 	case *ssa.Range:
+		if m, ok := fr.get(instr.X).(*MapV); ok && m != nil {
+			r.raceAccess(m, false, fr, instr)
+		}
 		fr.env[instr] = r.rangeIter(fr.get(instr.X))
 	case *ssa.Next:
 		switch it := fr.get(instr.Iter).(type) {
@@ -1215,6 +1245,18 @@ func (r *Run) callBuiltin(fr *frame, name string, args []Value) Value {
 			if len(e.Data) == 0 {
 				return s
 			}
+			if r.raceOn() && !fr.user {
+				for i := range e.Data {
+					r.raceAccess(&e.Data[i], false, fr, nil)
+				}
+				if n := len(s.Data); n+len(e.Data) <= cap(s.Data) {
+					// in place: the spare elements of the shared backing array are written
+					spare := s.Data[n : n+len(e.Data)]
+					for i := range spare {
+						r.raceAccess(&spare[i], true, fr, nil)
+					}
+				}
+			}
 			return SliceV{Data: append(s.Data, e.Data...)}
 		case StrV:
 			var data []Value
@@ -1231,6 +1273,12 @@ func (r *Run) callBuiltin(fr *frame, name string, args []Value) Value {
 		dst := args[0].(SliceV)
 		switch src := args[1].(type) {
 		case SliceV:
+			if r.raceOn() && !fr.user {
+				for i := 0; i < len(dst.Data) && i < len(src.Data); i++ {
+					r.raceAccess(&src.Data[i], false, fr, nil)
+					r.raceAccess(&dst.Data[i], true, fr, nil)
+				}
+			}
 			n := copy(dst.Data, src.Data)
 			return IntV{C: uint64(n)}
 		case StrV:
